@@ -136,11 +136,12 @@ def _limit_endpoint(
     # If derivative does not point in the direction of the first secant, zero it
     # (`<=` covers a flat first secant, s_l == 0, where the standard limiter
     # sign(d) != sign(s_l) also zeroes the slope; `<` let the interpolant overshoot there)
-    mask_sign_change = d_end * s_l <= 0
+    # (signs are compared directly: the product of two tiny values underflows to zero)
+    mask_sign_change = ((d_end <= 0) | (s_l <= 0)) & ((d_end >= 0) | (s_l >= 0))
     d_end = torch.where(mask_sign_change, torch.zeros_like(d_end), d_end)
 
     # If secants switch sign, cap magnitude to 3*|s_l|
-    mask_sign_change = s_l * s_r < 0
+    mask_sign_change = ((s_l > 0) & (s_r < 0)) | ((s_l < 0) & (s_r > 0))
     mask_cap = mask_sign_change & (torch.abs(d_end) > 3.0 * torch.abs(s_l))
     return torch.where(mask_cap, 3.0 * s_l, d_end)
 
@@ -172,7 +173,8 @@ def _pchip_derivatives(
     delta_l, delta_r = delta[:-1], delta[1:]
     h_l, h_r = h[:-1], h[1:]
 
-    mask_same_sign = (delta_l * delta_r) > 0  # excludes zeros + sign changes
+    # excludes zeros + sign changes (compared directly: a product of tiny secants underflows)
+    mask_same_sign = ((delta_l > 0) & (delta_r > 0)) | ((delta_l < 0) & (delta_r < 0))
     # Evaluate the harmonic mean on safe operands only: torch.where back-propagates
     # through both branches, so a zero secant (flat data) in the discarded branch
     # would turn the gradients into NaN.
